@@ -142,6 +142,35 @@ func runBind(line, sitesF string) core.Outcome {
 		}
 	}
 	o.Impl = strings.Join(parts, "|")
+	// oracle (implementation alone): every protocol named by a bind of an address is served on
+	// that address by a server that serves the site
+	served := map[string]bool{} // "site addr prot"
+	for i := 0; i < n; i++ {
+		raw := cfg.Apps.HTTP.Servers["srv"+strconv.Itoa(i)]
+		var s srvT
+		json.Unmarshal(raw, &s)
+		for _, m := range hostIdxRe.FindAllSubmatch(raw, -1) {
+			for j, a := range s.Listen {
+				if s.ListenProtocols != nil && j < len(s.ListenProtocols) {
+					for _, p := range s.ListenProtocols[j] {
+						served[string(m[1])+" "+a+" "+p] = true
+					}
+				}
+			}
+		}
+	}
+	for i, st := range sites {
+		for _, b := range st.binds {
+			for _, a := range b[0] {
+				for _, p := range b[1] {
+					if !served[strconv.Itoa(i)+" "+a+":8080 "+p] {
+						o.Failures = append(o.Failures, core.Failure{Case: line, Class: "bind-protocol-not-served",
+							What: fmt.Sprintf("site h%d.test binds %s with protocol %s, but no server serving the site lists %s for %s:8080; input %q", i, a, p, p, a, clip(text, 500))})
+					}
+				}
+			}
+		}
+	}
 	checkValid(line, text, r.json, false, &o)
 	// tags
 	addrSeen := map[string]int{}
